@@ -495,6 +495,11 @@ func c03InjectedFamily(rep *kit.Report, scratch string, idx *int, crashPass bool
 					if rep.Expired() {
 						return false
 					}
+					if crashPass && r == "PF" {
+						// the file-system steps of PF are the first round of FC under the same parquet level: its crash
+						// images are among those of FC (same states, same oracle), which is enumerated for every vector
+						continue
+					}
 					c := c03Case{Levels: append([]int(nil), levels...), Parquet: p, Reorg: r, Inject: true, Depth2: crashPass && l <= depth2Len}
 					c03InjCrash = crashPass
 					if !crashPass {
